@@ -213,7 +213,13 @@ pub fn run_plan<O: PosOracle>(run: &Arc<Run>, oracle: &Arc<O>, plan: &Plan) {
 
     // ---- families
     let mut fam_notes = vec![];
-    for (f, cd) in plan.families.iter() {
+    // thorough tier: cheapest families first (estimated members x 30^child depth), so that a budget cap
+    // costs the few giant enumerations at the end, never the many small families the quick tier covers
+    let mut order: Vec<&(Box<dyn Family>, u8)> = plan.families.iter().collect();
+    if run.tier == Tier::Thorough {
+        order.sort_by_key(|(f, cd)| f.size().saturating_mul(30u64.pow(*cd as u32)));
+    }
+    for (f, cd) in order.into_iter() {
         if run.has_violation() {
             break;
         }
